@@ -66,6 +66,11 @@ impl Scenario {
         self.cfg.t2 = true;
         self
     }
+    /// store-buffer model: a non-SeqCst store may be held back (costed deviation), see EngineCfg::tso
+    pub fn tso(mut self) -> Self {
+        self.cfg.tso = true;
+        self
+    }
     /// std::thread::park may return spuriously: offered as a costed deviation
     pub fn spurious(mut self) -> Self {
         self.cfg.spurious = true;
@@ -141,7 +146,7 @@ impl Scenario {
     }
     pub fn cfg_json(&self) -> Value {
         json!({
-            "coarse": self.cfg.coarse, "post_points": self.cfg.post_points, "spurious_park": self.cfg.spurious, "t2": self.cfg.t2, "desc": self.cfg.desc, "horizon": self.cfg.horizon,
+            "coarse": self.cfg.coarse, "post_points": self.cfg.post_points, "spurious_park": self.cfg.spurious, "store_buffer": self.cfg.tso, "t2": self.cfg.t2, "desc": self.cfg.desc, "horizon": self.cfg.horizon,
             "vt_horizon_ns": self.cfg.vt_horizon, "fair": self.cfg.fair, "alloc": alloc::mode_name(self.alloc),
             "bound": self.bound, "bound_max": self.bound_max, "deepen_budget": self.budget
         })
